@@ -137,3 +137,47 @@ def bool_family(n, kinds=None, names='acd', rotations=None):
     for e in out:
         if e not in seen: seen.add(e); res.append(e)
     return res
+
+
+# ---------------------------------------------------------------------------------------------------------------------
+# wide family: one instance of every expression form the bytecode can hold (operator tables, displays, call shapes, f-string
+# conversions, nested functions); depth 1 over the atoms a b c plus a few fixed depth-2 shapes
+def wide(atoms=('a', 'b', 'c')):
+    a, b, c = atoms[:3]
+    out = []
+    for op in ('+', '-', '*', '/', '//', '%', '**', '@', '<<', '>>', '&', '|', '^'):
+        out += ['%s %s %s' % (a, op, b), '%s %s %s' % (b, op, a), '%s %s %s %s %s' % (a, op, b, op, c), '%s %s (%s %s %s)' % (a, op, b, op, c)]
+    for op in ('<', '<=', '>', '>=', '==', '!=', 'is', 'is not', 'in', 'not in'):
+        out += ['%s %s %s' % (a, op, b), '%s %s %s' % (b, op, a), 'not (%s %s %s)' % (a, op, b), '%s %s %s %s %s' % (a, op, b, op, c)]
+    out += ['~%s' % a, '+%s' % a, '-%s' % a, 'not %s' % a, '~-%s' % a, '-~%s' % a, 'not ~%s' % a, '- - %s' % a, 'not not %s' % a]
+    out += ['{%s: %s, %s: %s}' % (a, b, c, a), '{%s: %s, %s: %s, %s: %s}' % (a, b, c, a, b, c), "{'k': %s, %s: %s}" % (a, b, c), "{'k': %s, 'j': %s}" % (a, b),
+            "{%s: 1, %s: 2}" % (a, b), '{%s: %s}' % (a, b), '{}', '{%s, %s}' % (a, b), '{%s, %s, %s}' % (c, a, b), '[%s, %s, %s]' % (a, b, c), '[%s]' % a, '[]',
+            '(%s, %s, %s)' % (a, b, c), '((%s, %s), %s)' % (a, b, c), '(%s, (%s, %s))' % (a, b, c), '(%s,)' % a, '()', '[(%s, %s), [%s]]' % (a, b, c),
+            '{**%s, %s: %s}' % (a, b, c), '[*%s, %s]' % (a, b), '(*%s, %s)' % (a, b), '{*%s, %s}' % (a, b),
+            '(1, 2)', '(1, %s)' % a, "('x', None, True)", '[1, 2]', '{1, 2}', '%s in (1, 2)' % a, '%s in [1, 2]' % a, '%s in {1, 2}' % a, '%s not in (%s, %s)' % (a, b, c),
+            '%s in [%s, %s]' % (a, b, c)]
+    for conv in ('', '!s', '!r', '!a'):
+        out += ["f'{%s%s}'" % (a, conv), "f'{%s%s:>3}'" % (a, conv), "f'{%s%s:{%s}}'" % (a, conv, b), "f'x{%s%s}y{%s}'" % (a, conv, b), "f'{%s%s}{%s!r}'" % (a, conv, b)]
+    out += ["f'{{{%s}}}'" % a, "f'{%s}{%s}{%s}'" % (a, b, c), "f'{%s:{%s}.{%s}}'" % (a, b, c), "f'{%s + %s}'" % (a, b), "f'{%s.p!r:^{%s}}'" % (a, b), "f''", "f'x'"]
+    out += ['f(%s)' % a, 'f(%s, %s)' % (a, b), 'f(%s, %s, %s)' % (a, b, c), 'f()', 'f(k=%s)' % a, 'f(k=%s, j=%s)' % (a, b), 'f(j=%s, k=%s)' % (a, b), 'f(%s, k=%s)' % (a, b),
+            'f(%s, %s, k=%s)' % (a, b, c), 'f(%s, k=%s, j=%s)' % (a, b, c), 'f(*%s)' % a, 'f(%s, *%s)' % (a, b), 'f(*%s, %s)' % (a, b), 'f(*%s, *%s)' % (a, b),
+            'f(**%s)' % a, 'f(%s, **%s)' % (a, b), 'f(*%s, **%s)' % (a, b), 'f(%s, *%s, k=%s)' % (a, b, c), 'f(k=%s, **%s)' % (a, b), 'f(**%s, **%s)' % (a, b),
+            '%s.m()' % a, '%s.m(%s)' % (a, b), '%s.m(%s, k=%s)' % (a, b, c), '%s.m(*%s)' % (a, b), '%s.m(k=%s)' % (a, b), '%s.p.m(%s).q' % (a, b), '%s.m(%s).n(%s)' % (a, b, c),
+            'f(%s)(%s)' % (a, b), 'f(%s)[%s]' % (a, b), '%s[%s](%s)' % (a, b, c), 'f(g(%s), h(%s))' % (a, b), 'f(%s.p, k=%s.q)' % (a, b)]
+    out += ['%s[%s]' % (a, b), '%s[%s][%s]' % (a, b, c), '%s[%s, %s]' % (a, b, c), '%s[(%s, %s)]' % (a, b, c), '%s[%s:%s]' % (a, b, c), '%s[%s:]' % (a, b), '%s[:%s]' % (a, b), '%s[:]' % a,
+            '%s[::%s]' % (a, b), '%s[%s::%s]' % (a, b, c), '%s[:%s:%s]' % (a, b, c), '%s[%s:%s:%s]' % (a, b, c, a), '%s[%s:%s, %s]' % (a, b, c, a), '%s[%s, %s:%s]' % (a, b, c, a),
+            '%s[::2, 1:]' % a, '%s[-1]' % a, '%s[-1:]' % a, '%s[:-1]' % a, '%s[1:-1]' % a, '%s[...]' % a, "%s['k']" % a, '%s[%s.p:%s.q]' % (a, b, c), '%s[-%s:]' % (a, b)]
+    out += ['(lambda: %s)' % a, '(lambda y: y + %s)' % a, '(lambda y=%s: y)' % a, '(lambda y=%s: y + %s)' % (a, b), '(lambda y=%s, z=%s: y + z)' % (a, b), '(lambda y, z=%s: y + z + %s)' % (a, b),
+            '(lambda *y: %s)' % a, '(lambda **y: %s)' % a, '(lambda y, *, k=%s: y + %s)' % (a, b), '(lambda y, *, k: y + k)', '(lambda y, /, z: y + z + %s)' % a,
+            'f(lambda y=%s: y + %s)' % (c, a), 'f(lambda y: y.p == %s)' % a, 'f(y for y in %s)' % a, 'f(y + %s for y in %s if %s)' % (b, a, c), 'f(y for y in %s if y.p == %s)' % (a, b),
+            'f((y, z) for y in %s for z in y.q)' % a, '[y for y in %s]' % a, '{y for y in %s}' % a, '{y: %s for y in %s}' % (a, b)]
+    out += ['%s if %s else %s' % (a, b, c), '%s if %s else (%s if %s else %s)' % (a, b, c, a, b), '(%s if %s else %s) if %s else %s' % (a, b, c, a, b), '1 if %s else 2' % a,
+            '%s if not %s else %s' % (a, b, c), '(%s if %s else %s).p' % (a, b, c), 'f(%s if %s else %s)' % (a, b, c), '(%s if %s else %s)[%s]' % (a, b, c, a),
+            '%s.p' % a, '%s.p.q' % a, '%s.p.q.r' % a, '-%s.p' % a, '(-%s).p' % a, '%s ** -%s' % (a, b), '-%s ** %s' % (a, b), '(-%s) ** %s' % (a, b), '%s ** %s ** %s' % (a, b, c),
+            '(%s ** %s) ** %s' % (a, b, c), '%s - (%s - %s)' % (a, b, c), '%s / (%s * %s)' % (a, b, c), '%s * (%s + %s)' % (a, b, c), '(%s + %s) * %s' % (a, b, c), '%s %% (%s %% %s)' % (a, b, c),
+            "%s == 'x'" % a, '%s == 1.5' % a, '%s == -1' % a, '%s == None' % a, '%s is True' % a, '%s == (1, 2)' % a, "%s == b'x'" % a, '%s == 100000000000000000000' % a, '%s == 1j' % a,
+            'None', 'True', '1', "'s'", '-1', '1.5', '(%s, None)' % a, '[None, %s]' % a]
+    seen = set(); res = []
+    for e in out:
+        if e not in seen: seen.add(e); res.append(e)
+    return res
